@@ -596,7 +596,25 @@ def check_C18(tier, seed):
                   assumptions=ASSUME_SESS + ["the variable, DATA and code pools are driven to their limit only in the thorough tier"])
 
 
-CHECKS = {"C18": check_C18, "C02": check_C02, "C07": check_C07, "C20": check_C20, "C15": check_C15, "C13": check_C13, "C12": check_C12, "C08": check_C08, "C01": check_C01, "C04": check_C04, "C06": check_C06}
+def check_C14(tier, seed):
+    t0 = time.time()
+    stages = []
+    cfgs = ["MC_C14_quick.cfg"] if tier == "quick" else ["MC_C14_thorough.cfg", "MC_C14_thorough_b.cfg"]
+    for i, cfg in enumerate(cfgs):
+        st1, sess = tlc_sessions("C14", "MC_C14.tla", cfg, timeout=6000, keep=lambda d: not d.get("oom"))
+        stages.append(st1)
+        stages.append(validate_sessions("C14", "mc%d" % i, sess, exhaustive=True, timeout=6000))
+    return finish("C14", tier, seed, "model_checking", stages, t0,
+                  rule="every two-line program (plus a fixed last line) over the referencing statement forms (GOTO after a "
+                       "non-ASCII string literal, GOSUB, IF..THEN n ELSE n, IF..GOTO, ON..GOTO, ON..GOSUB, RESTORE [n], RUN [n], "
+                       "LIST / DELETE in every operand form) x every RENUM argument triple of the configuration (omitted "
+                       "operands, 0, step 0, overflow past 65529, order violations); TLC checks RenumExact and RenumSound on "
+                       "the specification; each case is a session (lines, RENUM, LIST with text compared, RUN) executed by "
+                       "the real interpreter and validated",
+                  assumptions=ASSUME_SESS)
+
+
+CHECKS = {"C14": check_C14, "C18": check_C18, "C02": check_C02, "C07": check_C07, "C20": check_C20, "C15": check_C15, "C13": check_C13, "C12": check_C12, "C08": check_C08, "C01": check_C01, "C04": check_C04, "C06": check_C06}
 for _p in ("C09", "C10", "C11", "C17"):
     CHECKS[_p] = prog_check(_p)
 
